@@ -16,4 +16,5 @@ def run(tier):
     queues.fallback_rule(run, f, "C06-FALLBACK")
     queues.sweep_rule(run, f, "C06-SWEEP")
     queues.len_reset_rule(run, f, "C06-LEN-RESET")
+    queues.retry_rule(run, f, "C06-SHARED-RETRY")
     return run.finish()
